@@ -403,6 +403,27 @@ def check_get_assertion(paths, ctx, want):
                 if later:
                     F.append(Finding("C07", "ga.update-after-signing", "update_credential is issued after extension processing / signing", ga_scenario(p, ctx),
                                      lambda o: True, p))
+            # a credential with a counter never produces an assertion without the store having been given the new value
+            cdiscr = None
+            for k, op, v in p.conds:
+                if k.startswith("(discr (proj (ret") and k.endswith("@Ok.0.%d))" % ctx.pk["counter"]):
+                    cdiscr = v
+            if kind == "Ok" and cdiscr == 1 and not upd:
+                base = ga_scenario(p, ctx, counter=7)
+                vs = []
+                if base:
+                    for up in (True, False):
+                        for uv in (False, True):
+                            for outcome in ([True, True], [False, True], [False, False], [True, False]):
+                                v = json.loads(json.dumps(base))
+                                v["request"]["up"] = up
+                                v["request"]["uv"] = uv
+                                v["user"]["outcome"] = {"ok": outcome}
+                                vs.append(v)
+                F.append(Finding("C07", "ga.ok-without-update", "an assertion is returned for a credential with a counter on a path that never calls update_credential (%s)" %
+                                 "; ".join(kk[:50] for kk, op, v in p.conds if "contains" in kk or "up" in kk)[:120], vs or None,
+                                 lambda o: isinstance(o["result"], dict) and "ok" in o["result"] and o["result"]["ok"]["counter"] is not None and
+                                 not any(c["call"] == "update" for c in o["log"]), p))
             # lookup errors surface only after consent
             if kind == "Err" and find and not cu and payload is not None and derives_from(payload, ("await", find[0][1]["ret"]), p):
                 sc = ga_scenario(p, ctx)
@@ -472,6 +493,24 @@ def check_get_assertion(paths, ctx, want):
                     a0 = e["args"][0]
                     if not derives_from(a0, origin, p) and chase(a0)[0] != "ref":
                         F.append(Finding("C04", "ga.signs-with-other-credential", "the signing key does not come from the looked-up credential", None, None, p))
+                # ... and the credential that signs is the very one that was shown for consent (not another element of the lookup result)
+                _, shown_v = _pointee(cu[0][1], 2)
+                if shown_v is None and shown_t[0] != "ref":
+                    shown_v = shown_t
+                if pk and shown_v is not None and not (shown_v[0] == "ctor" and shown_v[1] == "None"):
+                    _, key_v = _pointee(pk[0][1], 0)
+                    sel = shown_v
+                    while isinstance(sel, tuple) and sel and sel[0] in ("via", "clone"):
+                        sel = sel[2] if sel[0] == "via" else sel[1]
+                    if key_v is not None and not derives_from(key_v, sel, p):
+                        sc2 = ga_scenario(p, ctx)
+                        if sc2:
+                            sc2["store"]["find"] = {"ok": 3}
+                            sc2["store"]["held"] = [{"counter": 5}, {"counter": 6}, {"counter": 7}]
+                        F.append(Finding("C04", "ga.consent-for-other-credential", "the credential shown to the user (%s) is not the one whose key signs (%s)" %
+                                         (tstr(sel)[:70], tstr(chase(key_v))[:70]), sc2,
+                                         lambda o: isinstance(o["result"], dict) and "ok" in o["result"] and
+                                         [c for c in o["log"] if c["call"] == "check_user"][0]["credential_first_byte"] != o["result"]["ok"]["credential_first_byte"], p))
 
         if "C03" in want and kind == "Ok":
             F += assertion_binding_checks(p, ctx, payload, find, sign)
@@ -635,7 +674,13 @@ def counter_checks(paths, ctx, solver):
                 F.append(Finding("C08", "ga.update-without-counter", "a credential without a counter is written back by an assertion", ga_scenario(p, ctx),
                                  lambda o: any(c["call"] == "update" for c in o["log"]), p))
             if cdiscr == 1 and not upd:
-                F.append(Finding("C08", "ga.counter-not-persisted", "a credential with a counter is not written back", ga_scenario(p, ctx),
+                _b = ga_scenario(p, ctx, counter=7)
+                _vs = []
+                for _up in (True, False):
+                    for _oc in ([True, True], [False, True], [False, False], [True, False]):
+                        if _b:
+                            _v = json.loads(json.dumps(_b)); _v["request"]["up"] = _up; _v["user"]["outcome"] = {"ok": _oc}; _vs.append(_v)
+                F.append(Finding("C08", "ga.counter-not-persisted", "a credential with a counter is not written back", _vs or ga_scenario(p, ctx),
                                  lambda o: not any(c["call"] == "update" for c in o["log"]) and "ok" in json.dumps(o["result"]), p))
             if cdiscr == 1 and upd and new:
                 written = counter_of(upd[0][1]["args"][1], ctx)
@@ -809,6 +854,15 @@ def with_store_errors(sc, op):
         v = json.loads(json.dumps(sc))
         v["store"][op] = {"err": code}
         out.append(v)
+    if op == "save":
+        # ... and under every store capability / resident-key request (the path's own choice comes first)
+        for cap in ("full", "non_discoverable", "forced"):
+            for rk in (False, True):
+                v = json.loads(json.dumps(sc))
+                v["store"][op] = {"err": STORE_ERROR_CODES[0]}
+                v["store"]["capability"] = cap
+                v["request"]["rk"] = rk
+                out.append(v)
     return out
 
 
@@ -905,7 +959,17 @@ def check_make_credential(paths, ctx, want):
                     F.append(Finding("C05", "mc.exclude-rp-id", "the exclude-list lookup does not receive the request's rp.id (%s)" % tstr(rp)[:80], None, None, p))
                 ids = chase(e["args"][1])
                 if not ctx.is_input_ref(ids, ctx.mc["exclude_list"]):
-                    F.append(Finding("C05", "mc.exclude-list-source", "the id list of the exclude lookup is not the request's exclude list (%s)" % tstr(ids)[:80], None, None, p))
+                    base = {"op": "make_credential", "request": {"up": True, "uv": False, "rk": False, "pin_auth": False, "exclude_list": [1]},
+                            "store": {"find": {"ok": 1}, "held": [{"counter": None}], "capability": "forced", "pending": {}},
+                            "user": {"verification": True, "presence_enabled": True, "outcome": {"ok": [True, True]}, "pending": 0}, "config": {}}
+                    vs = []
+                    for n_ in (16, 32, 8, 64, 1):
+                        v = json.loads(json.dumps(base))
+                        v["request"]["id_len"] = n_
+                        vs.append(v)
+                    v = json.loads(json.dumps(base)); v["request"]["exclude_list"] = [2, 1]; vs.append(v)
+                    F.append(Finding("C05", "mc.exclude-list-source", "the id list of the exclude lookup is not the request's exclude list (%s)" % tstr(ids)[:80], vs,
+                                     lambda o: o["result"] != {"err": 0x19}, p))
             if kind == "Err" and "CredentialExcluded" in tstr(payload):
                 if muts or not find:
                     F.append(Finding("C05", "mc.excluded-handling", "CredentialExcluded without a lookup or with a store mutation", mc_scenario(p, ctx), None, p))
@@ -1645,6 +1709,49 @@ def check_concurrent_counters(ga_paths, fns_tokio, ctx, solver):
                              lambda o: len(o["result"]["counters"]) == 2 and None not in o["result"]["counters"] and o["result"]["counters"][0] == o["result"]["counters"][1], gap[0]))
     elif verdict != "unsat":
         raise Shape("solver answered %s on the interleaving query" % verdict)
+    # (3c) three ceremonies: after all have succeeded, the stored counter is the largest one reported
+    names = ("A", "B", "C")
+    tv = ["tR%s" % n for n in names] + ["tW%s" % n for n in names]
+    decls3 = ["(declare-const c (_ BitVec 32))"] + ["(declare-const %s Int)" % t for t in tv] + ["(declare-const v%s (_ BitVec 32))" % n for n in names] + \
+             ["(declare-const stored (_ BitVec 32))", "(declare-const largest (_ BitVec 32))"]
+    nv = {n: step_smt(step, "v" + n) for n in names}
+    a3 = ["(distinct %s)" % " ".join(tv)] + ["(and (>= %s 0) (<= %s 5))" % (t, t) for t in tv] + ["(< tR%s tW%s)" % (n, n) for n in names]
+    for i in names:
+        j, k = [x for x in names if x != i]
+        a3.append("(= v%s (ite (and (< tW%s tR%s) (or (not (< tW%s tR%s)) (< tW%s tW%s))) %s (ite (< tW%s tR%s) %s (ite (< tW%s tR%s) %s c))))" %
+                  (i, j, i, k, i, k, j, nv[j][0], k, i, nv[k][0], j, i, nv[j][0]))
+        a3.append(nv[i][1])
+    a3.append("(= stored (ite (and (> tWA tWB) (> tWA tWC)) %s (ite (> tWB tWC) %s %s)))" % (nv["A"][0], nv["B"][0], nv["C"][0]))
+    mx = lambda x, y: "(ite (bvugt %s %s) %s %s)" % (x, y, x, y)
+    a3.append("(= largest %s)" % mx(mx(nv["A"][0], nv["B"][0]), nv["C"][0]))
+    a3 += ["(bvult stored largest)", "(bvult c #xfffffff0)"]
+    verdict, model = solver.check(decls3, a3, want_model=True)
+    nq += 1
+    if verdict == "sat":
+        try:
+            pos = {t: int(model[t]) for t in tv}
+        except (KeyError, ValueError):
+            pos = {"tRA": 0, "tRB": 1, "tWB": 2, "tRC": 3, "tWC": 4, "tWA": 5}
+        evs = sorted(tv, key=lambda t: pos[t])
+        pending = {}
+        for n_ in names:
+            r, w = evs.index("tR" + n_), evs.index("tW" + n_)
+            pending[n_] = 1 if w - r > 1 else 0
+        order = []
+        for t in evs:
+            n_ = t[2]
+            if t[1] == "R" or pending[n_]:
+                order.append(n_)
+        for lock, percall in per_call.items():
+            if not percall:
+                continue
+            F.append(Finding("C19", "concurrent.three-assertions.stored-below-largest.%s" % lock,
+                             "three assertions with the same credential through the %s wrapper: the counter left in the store is smaller than the largest counter reported "
+                             "(a suspended ceremony writes its stale value back last; schedule %s)" % (lock, " ".join(evs)),
+                             {"op": "concurrent_assert", "counter": 5, "lock": lock, "order": order, "pending": pending},
+                             lambda o: None not in o["result"]["counters"] and o["result"]["stored"] is not None and o["result"]["stored"] < max(o["result"]["counters"]), gap[0]))
+    elif verdict != "unsat":
+        raise Shape("solver answered %s on the three-ceremony query" % verdict)
     return F, nq + nwrap, None
 
 
@@ -2501,4 +2608,157 @@ def check_secrecy_extensions(fns, ctx):
     run("::make_extensions", cls_make, ("::make_prf",), "make_extensions' signed / unsigned outputs depend on the new secrets outside make_prf", r"prf-secret", only_outputs)
     if n == 0:
         raise Shape("no returning path in the extension functions")
+    return F, n
+
+
+def check_validated_is_returned(fns):
+    """C01: the name that is validated is the name that is returned.  On every Ok path of assert_android_rp_id the value
+    returned is what decode_host and the suffix provider were asked about; on every Ok path of assert_web_rp_id it is what
+    assert_valid_rp_id was given; inside assert_valid_rp_id both are asked about the function's own argument."""
+    from .executor import Executor
+    F = []
+    n = 0
+    android_sc = {"op": "android_rp", "cases": [["example.com", "com"], ["www.example.co.uk", "co.uk"], ["www.example.co.uk", "uk"], ["a.b.example.com", "example.com"],
+                                                  ["example.com", None], ["login.shop.test.ck", "test.ck"]]}
+    android_bad = lambda o: any(c["accepted"] and c["rp_is_public_suffix"] for c in o["result"]["cases"])
+    web_sc = {"op": "rp_id_valid", "names": ["com", "co.uk", "uk", "test.ck"]}
+    for fname, callee_suffixes in (("assert_android_rp_id", ("effective_tld_plus_one", "decode_host")), ("assert_web_rp_id", ("assert_valid_rp_id",)),
+                                   ("assert_valid_rp_id", ("effective_tld_plus_one", "decode_host"))):
+        cands = [f for nme, f in fns.items() if nme.endswith("::" + fname)]
+        if len(cands) != 1:
+            raise Shape("cannot identify %s in the MIR (%d)" % (fname, len(cands)))
+        for p in Executor(cands[0], follow_yields=False).run():
+            if p.end and p.end[0] == "unsupported":
+                raise Shape("unsupported MIR in %s: %s" % (fname, p.end[1][:160]))
+            if not p.end or p.end[0] != "return":
+                continue
+            n += 1
+            ret = p.end[1]
+            if fname == "assert_valid_rp_id":
+                want = [("in", "_2")]
+            else:
+                if not (ret[0] == "ctor" and ret[1] == "Ok" and ret[2]):
+                    continue
+                want = [chase(ret[2][0])]
+            for i, e in enumerate(p.events):
+                if e["kind"] != "call" or not e["callee"].endswith(callee_suffixes):
+                    continue
+                a = chase(e["args"][-1] if e["callee"].endswith("decode_host") else e["args"][1])
+                if a not in want:
+                    role = "%s.validates-other-name" % fname
+                    if fname == "assert_android_rp_id":
+                        F.append(Finding("C01", role, "%s is asked about %s, but the name returned as accepted is %s" % (e["callee"].split("::")[-1], tstr(a)[:60], tstr(want[0])[:60]),
+                                         android_sc, android_bad, p))
+                    else:
+                        F.append(Finding("C01", role, "%s: %s is asked about %s instead of %s" % (fname, e["callee"].split("::")[-1], tstr(a)[:60], tstr(want[0])[:60]),
+                                         web_sc, lambda o: bool(o["result"].get("accepted")), p))
+    if n == 0:
+        raise Shape("no returning path in the RP ID validators")
+    return F, n
+
+
+def check_store_writes(fns, kind):
+    """shipped stores (C07/C08): update_credential and save_credential put the credential they are given into the store on
+    every path that answers Ok - an unconditional HashMap::insert keyed by the credential's own id (MemoryStore) or
+    Option::replace / insert (Option<Passkey>)"""
+    from .executor import Executor
+    F = []
+    n = 0
+    ty = "HashMap<Vec<u8>, Passkey>" if kind == "memory" else "Option<Passkey>"
+    for m in ("update_credential", "save_credential"):
+        outer = [f for nme, f in fns.items() if "credential_store::<impl" in nme and nme.endswith("::" + m) and re.match(r"fn [^(]*\(_1: &mut " + re.escape(ty), f.sig)]
+        if len(outer) != 1:
+            raise Shape("cannot identify <%s as CredentialStore>::%s (%d)" % (ty, m, len(outer)))
+        blk = fns.get(outer[0].name + "::{closure#0}")
+        if blk is None:
+            raise Shape("no async block for <%s>::%s" % (ty, m))
+        sc = {"op": "store_write", "store_kind": kind, "method": m}
+        for p in Executor(blk).run():
+            if p.end and p.end[0] == "unsupported":
+                raise Shape("unsupported MIR in <%s>::%s: %s" % (ty, m, p.end[1][:160]))
+            if not (p.end and p.end[0] == "return" and p.end[1][0] == "ctor" and p.end[1][1] == "Ready"):
+                continue
+            res = result_of(p)
+            if res is None or res[0] != "Ok":
+                continue
+            n += 1
+            ev = [(i, e) for i, e in enumerate(p.events) if e["kind"] == "call"]
+            if kind == "memory":
+                w = [e for _, e in ev if e["callee"].endswith("HashMap::insert")]
+            else:
+                w = [e for _, e in ev if e["callee"].endswith(("Option::replace", "Option::insert"))]
+            cred = ("proj", ("in", "_1.0"), "^.1")
+            ok = False
+            for e in w:
+                val = chase(e["args"][-1])
+                if val == cred or (val[0] == "proj" and val[1] == ("in", "_1.0")):
+                    ok = True
+                    if kind == "memory":
+                        key = e["args"][1]
+                        if not derives_from(key, ("in", "_1.0"), p) and "_1.0" not in tstr(key) + tstr(list(p.events[key[1]].get("pointees", {}).values()) if key[0] == "ret" and isinstance(key[1], int) else ""):
+                            ok = False
+            if not ok:
+                F.append(Finding("C08" if m == "update_credential" else "C07", "store.%s.%s-not-stored" % (kind, m),
+                                 "<%s as CredentialStore>::%s answers Ok on a path that does not unconditionally put the given credential into the store (calls: %s)" %
+                                 (ty, m, [e["callee"].split("::")[-1] for _, e in ev][:8]), sc,
+                                 lambda o: o["result"].get("stored_after") is not True, p))
+    if n == 0:
+        raise Shape("no Ok path in the %s store's write methods" % kind)
+    return F, n
+
+
+def check_authdata_setters(fns, src):
+    """C12: each AuthenticatorData setter sets the AT / ED bit exactly when it attaches the corresponding section, and never
+    the other one: on every returning path, the section field is written to Some(..) <=> the bit is or-ed into `flags`"""
+    from .executor import Executor
+    idx = {f: field_index(src, "AuthenticatorData", f) for f in ("flags", "attested_credential_data", "extensions")}
+    sect = {".%d" % idx["attested_credential_data"]: "AT", ".%d" % idx["extensions"]: "ED"}
+    F = []
+    n = 0
+    seen_sections = set()
+    sc = {"op": "authdata_setters"}
+    bad = lambda o: any(c["at"] != c["want_at"] or c["ed"] != c["want_ed"] or not c["decodes"] or not c["reencodes_same"] for c in o["result"]["cases"])
+    for m in ("set_attested_credential_data", "set_make_credential_extensions", "set_assertion_extensions"):
+        cands = [f for nme, f in fns.items() if nme.endswith("::" + m) and "attestation_fmt" in nme]
+        if len(cands) != 1:
+            raise Shape("cannot identify AuthenticatorData::%s (%d)" % (m, len(cands)))
+        for p in Executor(cands[0], follow_yields=False).run():
+            if p.end and p.end[0] == "unsupported":
+                raise Shape("unsupported MIR in %s: %s" % (m, p.end[1][:160]))
+            if not p.end or p.end[0] != "return":
+                continue
+            ret = p.end[1]
+            while isinstance(ret, tuple) and ret and ret[0] == "ctor" and ret[1] == "Ok" and ret[2]:
+                ret = ret[2][0]
+            if isinstance(ret, tuple) and ret and ret[0] == "ctor" and ret[1] == "Err":
+                continue
+            n += 1
+            bits = set()
+            # a trailing self.set_flags(CONST)
+            t = ret
+            while isinstance(t, tuple) and t and t[0] == "ret" and str(t[2]).endswith("::set_flags"):
+                e = p.events[t[1]]
+                for b in ("AT", "ED"):
+                    if tstr(e["args"][1]).endswith("Flags::%s)" % b):
+                        bits.add(b)
+                t = chase(e["args"][0])
+            written = set()
+            if isinstance(t, tuple) and t and t[0] == "with":
+                for suf, v in t[2]:
+                    if suf in sect and isinstance(v, tuple) and v and v[0] == "ctor" and v[1] == "Some":
+                        written.add(sect[suf])
+            for e in p.events:
+                if e["kind"] == "call" and e["callee"].endswith(("BitOrAssign::bitor_assign", "Flags::insert", "Flags::set")):
+                    pl, _ = _pointee(e, 0)
+                    if pl is not None and pl.endswith(".%d" % idx["flags"]):
+                        for b in ("AT", "ED"):
+                            if tstr(e["args"][1]).endswith("Flags::%s)" % b):
+                                bits.add(b)
+            seen_sections.update(written)
+            if bits != written:
+                F.append(Finding("C12", "authdata.%s.section-bit-mismatch" % m, "AuthenticatorData::%s attaches section(s) %s but sets bit(s) %s" % (m, sorted(written), sorted(bits)), sc, bad, p))
+    if n == 0:
+        raise Shape("no returning path in the AuthenticatorData setters")
+    if seen_sections != {"AT", "ED"}:
+        raise Shape("the setters' paths attach only %s: the section writes were not recognised" % sorted(seen_sections))
     return F, n
